@@ -39,6 +39,11 @@ def plan(tier):
                 sh += sprops.products(gi, 2, [0.0, -1.0, -4.0], dict(unary_penalty=0.0, nbest=k), J)
                 if not real:
                     sh += sprops.products(gi, 3, [0.0, -1.0], dict(unary_penalty=0.0, nbest=k), J)
+    for gi, g in enumerate(G):
+        if not g.name.startswith(('en', 'ja')):
+            for n in (1, 2, 3):
+                for k in (2, 5):
+                    sh.append(('native', gi, n, ('dev', [float('-inf'), 0.0], -1.0, 2 if S.n_entries(n, len(g.tags)) <= 30 else 1, 20000), dict(unary_penalty=0.5, nbest=k), J))
     sh += sprops.long_shards(tier, [dict(unary_penalty=0.5, nbest=2), dict(unary_penalty=0.5, nbest=5)], J, allk=True)
     return sh
 
